@@ -144,6 +144,21 @@ class Prov:
             return a_ and b_
         if self._is_extreme(e, hard):
             return True
+        # a name bound to the index of a frame (`idx = frame.index`) reads like `frame.index`
+        def _index_of(x):
+            if isinstance(x, ast.Name):
+                vals = list(self._each_value(x, at))
+                if vals and all(k_ == "expr" and isinstance(v_, ast.Attribute) and v_.attr == "index" for k_, v_, _s in vals) and len({unparse(v_) for _k, v_, _s in vals}) == 1:
+                    return vals[0][1]
+            return x
+        if isinstance(e, ast.Call) and isinstance(e.func, ast.Attribute) and e.func.attr in ("max", "min") and not e.args:
+            ix = _index_of(e.func.value)
+            if ix is not e.func.value:
+                e = ast.Call(func=ast.Attribute(value=ix, attr=e.func.attr, ctx=ast.Load()), args=[], keywords=[])
+        if isinstance(e, ast.Subscript):
+            ix = _index_of(e.value)
+            if ix is not e.value:
+                e = ast.Subscript(value=ix, slice=e.slice, ctx=ast.Load())
         # <bounded frame>.index.max() / .min()
         if isinstance(e, ast.Call) and isinstance(e.func, ast.Attribute) and e.func.attr in ("max", "min") and not e.args \
                 and isinstance(e.func.value, ast.Attribute) and e.func.value.attr == "index":
